@@ -270,6 +270,15 @@ func propC16(c *Check) {
 		} else {
 			c.Violated("R4", "election-guard @ "+FuncKey(eb), p.Pos(eb.Pos()), "no early return: elections would run every block reason=not-established")
 		}
+		// and conversely an election runs only when it is due: the period has elapsed, or the proposer has not
+		// accepted, an accept timeout is configured (non-zero) and that timeout has elapsed
+		if len(epochSt) > 0 {
+			due := lit("(Params.Get()#0.ElectingPeriod <= " + dur + ")")
+			tgt := instrSet(epochSt)
+			c.RequireFact(eb, "R4", "election-only-after-period-or-not-accepted", due+"|"+lit("!Relayer.Get()#0.ProposerAccepted"), tgt, "starting an election")
+			c.RequireFact(eb, "R4", "election-only-after-period-or-timeout-configured", due+"|"+lit(NE("0", "Params.Get()#0.AcceptProposerTimeout")), tgt, "starting an election")
+			c.RequireFact(eb, "R4", "election-only-after-period-or-timeout-elapsed", due+"|"+lit("(Params.Get()#0.AcceptProposerTimeout <= "+dur+")"), tgt, "starting an election")
+		}
 		// proposer replacement
 		del := `slices\.DeleteFunc\(mix\{.*\}, closure\(x/relayer/keeper\.Keeper\.EndBlocker\$1\)\)`
 		nP := 0
